@@ -105,7 +105,7 @@ def to_cpp(e, bound=()):
     if k == "unstop": return "unifex::unstoppable(%s)" % to_cpp(e[1], bound)
     if k == "mat": return "k2::mat(%s)" % to_cpp(e[1], bound)
     if k == "dopt":   # every other one (by content): the void-valued form, same model term
-        return "k2::dopt%s(%s)" % ("_void" if zlib.crc32(to_model(e[1]).encode()) % 2 == 0 else "", to_cpp(e[1], bound))
+        return "k2::dopt%s(%s)" % ("_void" if zlib.crc32(repr(e[1]).encode()) % 2 == 0 else "", to_cpp(e[1], bound))
     a = to_cpp(e[1], bound)
     if k == "letv":
         x = "x%d" % len(bound)
